@@ -10,7 +10,7 @@ from hypothesis import strategies as st
 from ..backend_worker import Worker
 from ..jsongen import id_is_interesting, request_ids
 from ..jsonrpc_ref import first_diff, strict_eq
-from ..modelgen import discover_models, fields_of, optional_subsets, wire_strategy
+from ..modelgen import discover_models, explicit_nulls, fields_of, optional_subsets, wire_strategy
 from ..runner import Collector, Outcome, hyp_run, hyp_shrink
 
 ID = "C09"
@@ -216,6 +216,8 @@ def model_cases(target: str):
 
 
 ENV = "chuk_mcp.protocol.messages.json_rpc_message"
+# integers as some serialisers spell them (1.0, 2e3): the same JSON numbers, schema-valid as "integer"
+FLOAT_IDS = [1.0, 0.0, -3.0, 2e3, 1e15, float(2**53), -0.0, 7.0]
 
 
 @st.composite
@@ -227,6 +229,8 @@ def envelope_cases(draw):
     i = None
     if shape != "notification":
         i = draw(request_ids)
+        if draw(st.integers(0, 9)) == 0:
+            i = draw(st.sampled_from(FLOAT_IDS))  # an integer the peer's serialiser spelt with a fraction part or an exponent
         w["id"] = i
     if shape in ("request", "notification"):
         w["method"] = draw(st.sampled_from(["ping", "tools/call", "notifications/cancelled", "x/y"]))
@@ -251,7 +255,7 @@ def envelope_cases(draw):
         target, how = f"{ENV}:{cls_for}", "validate"
     else:
         target, how = f"{ENV}:JSONRPCMessage", "validate"
-    return {"target": target, "how": how, "data": w, "kind": "envelope", "nt": (i is not None and id_is_interesting(i)) or shape in ("result-null", "result-scalar")}
+    return {"target": target, "how": how, "data": w, "kind": "envelope", "nt": (i is not None and (isinstance(i, float) or id_is_interesting(i))) or shape in ("result-null", "result-scalar")}
 
 
 def invariant_cases() -> List[Dict[str, Any]]:
@@ -301,6 +305,32 @@ def job_envelopes(col: Collector, seed: int, tier: str, shard: int, n: int) -> N
     if shard == 0:
         for case in invariant_cases():
             col.record(case, check(case))
+        # float-spelt integer ids through every envelope shape and every way in
+        for i in FLOAT_IDS:
+            for shape, body in (("JSONRPCRequest", {"method": "ping"}), ("JSONRPCResponse", {"result": {}}), ("JSONRPCError", {"error": {"code": -1, "message": "m"}})):
+                w = dict({"jsonrpc": "2.0", "id": i}, **body)
+                for target, how in ((PARSE, "parse_message"), (f"{ENV}:{shape}", "validate"), (f"{ENV}:JSONRPCMessage", "validate")):
+                    case = {"target": target, "how": how, "data": w, "kind": "envelope", "nt": True}
+                    col.record(case, check(case))
+        col.exhaustive_parts.append(f"{len(FLOAT_IDS)} float-spelt integer ids x 3 envelope shapes x 3 ways in")
+
+
+def job_nulls(col: Collector, seed: int, tier: str, shard: int, nshards: int) -> None:
+    """every nullable member of every model class present with an explicit null (alone, next to the required members)"""
+    names = sorted(models())
+    n = 0
+    for i, t in enumerate(names):
+        if i % nshards != shard:
+            continue
+        try:
+            for _wire, o in explicit_nulls(models()[t]) or []:
+                case = {"target": t, "how": "validate", "data": o, "kind": "explicit-null", "nt": True}
+                col.record(case, check(case))
+                n += 1
+        except TypeError as e:
+            col.uncovered.append(f"{t}: {e}")
+    if shard == 0:
+        col.exhaustive_parts.append("every Optional[...] member of every discovered model class set to an explicit null next to the required members")
 
 
 @st.composite
@@ -321,13 +351,13 @@ def job_sequences(col: Collector, seed: int, tier: str, shard: int, n: int) -> N
     hyp_run(col, seed * 1000 + 950 + shard, sequence_cases(), check, n)
 
 
-JOBS = {"models": job_models, "envelopes": job_envelopes, "sequences": job_sequences}
+JOBS = {"nulls": job_nulls, "models": job_models, "envelopes": job_envelopes, "sequences": job_sequences}
 
 
 def jobs(tier: str):
     if tier == "quick":
-        return [("models", {"shard": s, "nshards": 6, "n": 120}) for s in range(6)] + [("envelopes", {"shard": s, "n": 500}) for s in range(2)] + [("sequences", {"shard": s, "n": 8}) for s in range(4)]
-    return [("models", {"shard": s, "nshards": 7, "n": 2500}) for s in range(7)] + [("envelopes", {"shard": s, "n": 15000}) for s in range(1)] + [("sequences", {"shard": s, "n": 250}) for s in range(4)]
+        return [("models", {"shard": s, "nshards": 6, "n": 120}) for s in range(6)] + [("envelopes", {"shard": s, "n": 500}) for s in range(2)] + [("sequences", {"shard": s, "n": 8}) for s in range(4)] + [("nulls", {"shard": s, "nshards": 2}) for s in range(2)]
+    return [("models", {"shard": s, "nshards": 7, "n": 2500}) for s in range(7)] + [("envelopes", {"shard": s, "n": 15000}) for s in range(1)] + [("sequences", {"shard": s, "n": 250}) for s in range(4)] + [("nulls", {"shard": s, "nshards": 2}) for s in range(2)]
 
 
 def shrink(signature: str, seed: int):
